@@ -254,6 +254,10 @@ def search_bisection(array, val):
         # a plain Python float is a weakly typed operand for NumPy: compared with a float32 / float16 element it would first
         # be rounded to that precision (and the vector search, which converts its queries to an array, would disagree)
         val = numpy.float64(val)
+    elif isinstance(val, int) and not isinstance(val, bool) and -2 ** 63 <= val < 2 ** 63:
+        # likewise a plain Python int: against a float32 / float16 element it would be rounded to that precision, while the
+        # vector search compares its int64 query array with such elements in double precision
+        val = numpy.int64(val)
 
     jlower = 0
     jupper = len(array) - 1
